@@ -88,6 +88,8 @@ Ops(S) ==
                          j \in IF Room(S) >= (IF pp[2] THEN Src.n ELSE Len(Src.top)) THEN 1..2 ELSE {}} :
                      pp \in Parents(S) \X BOOLEAN}
             ELSE {})
+      \cup UNION {{[name |-> "add_empty_tree", p |-> p, deep |-> TRUE, pos |-> pos] : pos \in Positions(S, p)} : p \in Parents(S)}
+      \cup {[name |-> "empty_tree_copy_to", p |-> p, deep |-> TRUE] : p \in Parents(S)}
       \cup {[name |-> "tree_copy_to", p |-> p, deep |-> dp] :
           p \in Parents(S), dp \in {b \in BOOLEAN : Room(S) >= (IF b THEN Src.n ELSE Len(Src.top))}}
       \cup UNION {{[name |-> "copy_children_to", p |-> pd[1], src |-> "T", x |-> x, deep |-> pd[2]] :
